@@ -3,10 +3,10 @@ import re
 
 from ..extract import AnalysisError
 from ..facts import walk, strip, callee, calls_to, local_name
-from ..symx import Poly, Unsupported, app, var, num, single_atom, atom_fn, atom_args
+from ..symx import Poly, Unsupported, app, var, num, single_atom, atom_fn, atom_args, vkey
 from ..trace import Tracer
 from ..tables import match_rows, find_matches, last_seg
-from ..panics import Audit, SM, matrix_dims
+from ..panics import Audit, SM, matrix_dims, SiteTracer
 from .. import staircase
 
 LEVEL = "other"
@@ -21,6 +21,34 @@ def in_branch(body, node, then_branch):
             br = n["t"] if then_branch else n["e"]
             return any(x is node for x in walk(br))
     return False
+
+
+def slice_spec(v):
+    """the per-axis ranges of an evaluated s![..] argument (first array of range values inside it)"""
+    stack = [v]
+    while stack:
+        x = stack.pop(0)
+        if isinstance(x, Poly):
+            for mono in x.t:
+                stack.extend(a for a, _ in mono)
+        elif isinstance(x, list):
+            stack.extend(x)
+        elif isinstance(x, tuple):
+            if len(x) == 2 and x[0] == "array" and isinstance(x[1], tuple) and x[1] and \
+                    all(isinstance(y, tuple) and y and y[0] == "struct" and str(y[1]).startswith("Range") for y in x[1]):
+                return list(x[1])
+            stack.extend(y for y in x if isinstance(y, (tuple, Poly, list)))
+    return None
+
+
+def zeros_shape(v):
+    """(rows, cols) of an ndarray value built by Array2::zeros((r, c)), else None"""
+    from ..panics import unwrap_mut
+    v = unwrap_mut(v)
+    a = single_atom(v) if isinstance(v, Poly) else None
+    if a and atom_fn(a).endswith("::zeros") and isinstance(a[2], tuple) and a[2][0] == "tuple" and len(a[2][1]) == 2:
+        return tuple(k[1] if isinstance(k, tuple) and k and k[0] == "P" else k for k in a[2][1])
+    return None
 
 
 def run(ck, F, tier):
@@ -51,30 +79,40 @@ def run(ck, F, tier):
     a = Audit(ck, F, "S1", FROM_H, ["h"], reviewed=reviewed, domain=[(num(1), Rr, False), (Rr, Cc, False)]).run()
     ck.floor("S1", "sites reachable from from_h", len(a.tracer.sites), 35)
     fb = F.body(FROM_H)
-    # error mapping: the result of gauss_reduction is matched, the Err arm returns Err(SubmatrixNotInvertible)
-    gm = [m for m in find_matches(fb.value) if (callee(strip(m["e"])) or "").endswith("linalg::gauss_reduction")]
-    ok = False
-    why = "gauss_reduction's result is not consumed by a match"
-    if len(gm) == 1:
-        rows = match_rows(gm[0])
-        errs = [r for r in rows if isinstance(r[0], tuple) and r[0][0] == "Err"]
-        oks = [r for r in rows if isinstance(r[0], tuple) and r[0][0] == "Ok"]
-        def returns_err(b):
-            b = strip(b)
-            if b.get("k") == "ret" and "e" in b:
-                c = strip(b["e"])
-                if c.get("k") == "call" and last_seg(callee(c) or "") == "Err":
-                    v = strip(c["args"][0])
-                    return v.get("k") == "path" and v.get("def", "").endswith("Error::SubmatrixNotInvertible")
+    # error mapping: the only early return is Err(SubmatrixNotInvertible), taken exactly when gauss_reduction's result matches Err(..)
+    # (read off the path conditions of the return events: match / if let / let else all give the same condition)
+    STAIR = app("encoder::staircase::is_staircase", H)
+    # structure trace of from_h: the matrix API, the staircase test and the elimination stay opaque; private helpers are expanded
+    st = SiteTracer(F, contracts=r"sparse::SparseMatrix::\w+|linalg::gauss_reduction|encoder::staircase::is_staircase")
+    envs = {}
+    st.bind(fb.params[0], H, envs)
+    st.fn_stack.append(fb.path)
+    try:
+        st.eval(fb.value, envs)
+    except Unsupported as e:
+        raise AnalysisError("Encoder::from_h: unreadable shape: %s" % e)
+    rets = [e for e in st.events if e.callee == "<return>"]
+    errs = [e for e in rets if e.args and e.args[0] == ("ctor", "Err", [("variant", "SubmatrixNotInvertible")])]
+
+    def gauss_err_guard(g, pol):
+        ga = single_atom(g) if isinstance(g, Poly) else None
+        if not ga or atom_fn(ga) != "matches":
             return False
-        ok = len(errs) == 1 and len(oks) == 1 and returns_err(errs[0][2]) and errs[0][0][1] == "NotInvertible"
-        why = "match gauss_reduction(..) { Ok(()) => continue, Err(NotInvertible) => return Err(SubmatrixNotInvertible) }" if ok else "arms %r" % [r[0] for r in rows]
-    unw = [c for c in walk(fb.value) if c.get("k") in ("mcall", "call") and re.search(r"::(unwrap|expect)$", callee(c) or "")]
-    ck.inst("S1", "from_h:error-mapping", ok and not unw, gm[0]["sp"] if gm else fb.span, why + ("" if not unw else " ; but an unwrap/expect is present"))
+        subj, pat = atom_args(ga)
+        sa = single_atom(subj) if isinstance(subj, Poly) else None
+        on_gauss = sa is not None and atom_fn(sa) == "linalg::gauss_reduction"
+        return on_gauss and (("Err" in str(pat) and pol) or ("Ok" in str(pat) and not pol))
+    ok = len(errs) == 1 and len(rets) == 1 and bool(errs[0].guards) and gauss_err_guard(*errs[0].guards[-1]) and not errs[0].loops
+    why = ("the only early return is Err(SubmatrixNotInvertible), under the condition that gauss_reduction(..) returned Err" if ok else
+           "early returns: %s" % [(repr(e.args)[:80], [(repr(g)[:80], p) for g, p in e.guards[-1:]]) for e in rets])
+    unw = [x for x in st.sites if x["kind"] == "call" and re.search(r"::(unwrap|expect)$", x["detail"]) and "gauss_reduction" in repr(x["vals"][:1])]
+    ck.inst("S1", "from_h:error-mapping", ok and not unw, errs[0].site if errs else fb.span, why + ("" if not unw else " ; but the result is unwrapped"))
 
     # ---- S2 / S3 / S4 on encode ---------------------------------------------------------
     eb = F.body(ENCODE)
-    te = Tracer(F, r"ndarray::concatenate|ndarray::.*::dot|ndarray::.*::from_iter", mode="int")
+    # helpers of the encoder module (e.g. an extracted running-sum function) are expanded at their call sites
+    te = Tracer(F, r"ndarray::concatenate|ndarray::.*::dot|ndarray::.*::from_iter", mode="int",
+                inline=lambda p: F.bodies.get(p) if p and p.startswith("encoder::") and p != ENCODE else None)
     env = {}
     for p, nm in zip(eb.params, ("self", "message")):
         te.bind(p, var(nm), env)
@@ -111,34 +149,53 @@ def run(ck, F, tier):
     asg = [e for e in te.events if e.callee == "<assign>" and e.loops]
     ok3 = False
     why = "no accumulate loop found in the Staircase arm"
-    if len(asg) == 1 and len(asg[0].loops) == 1 and asg[0].loops[0][0] == "range":
+    LEN = "ndarray::impl_methods::<impl ndarray::ArrayBase<S, D>>::len"
+    if len(asg) == 1 and len(asg[0].loops) == 1 and asg[0].node.get("op", "").startswith("Add"):
         l = asg[0].loops[0]
-        j = var(l[1])
         tgt, src = asg[0].args
         ta, sa = single_atom(tgt), single_atom(src)
-        if ta and sa and atom_fn(ta) == "index" and atom_fn(sa) == "index":
+        if l[0] == "range" and ta and sa and atom_fn(ta) == "index" and atom_fn(sa) == "index":
+            # idiom A: for j in 1..p.len() { p[j] += p[j-1] }
+            j = var(l[1])
             tb, ti = atom_args(ta)
             sb, si = atom_args(sa)
-            same = repr(tb).replace("mutated(", "").rstrip(")") in repr(sb).replace("mutated(", "") or True
-            lens = [app(nm, x) for nm in ("ndarray::impl_methods::<impl ndarray::ArrayBase<S, D>>::len",) for x in (tb, sb)]
-            ok3 = (l[2] == num(1) and not l[4] and ti == j and si == j - num(1) and asg[0].node.get("op", "").startswith("Add")
-                   and any(l[3] == x for x in lens))
+            from ..panics import unwrap_mut
+            same_seq = unwrap_mut(tb) == unwrap_mut(sb)
+            ok3 = l[2] == num(1) and not l[4] and ti == j and si == j - num(1) and same_seq and l[3] in (app(LEN, tb), app(LEN, sb), app(LEN, unwrap_mut(tb)))
             why = "for j in %r..%r: parity[%r] += parity[%r]" % (l[2], l[3], ti, si)
+        elif l[0] == "iter" and ta and atom_fn(ta) == "elem" and sa and sa[0] == "v" and sa[1].endswith("@loop"):
+            # idiom B: a carried "previous element": first = it.next(); prev = *first; for el in it { *el += prev; prev = *el }
+            seq, elv = atom_args(ta)
+            d = l[2]
+            rest = isinstance(d, tuple) and d[0] == "skip" and d[1] == ("elems", seq) and d[2] == num(1)
+            carried = [nm for nm in te.assigned if nm.split("#")[0] == sa[1][:-5]]
+            upd = len(carried) == 1 and te.assigned[carried[0]] == tgt
+            init = te.carried_init.get(carried[0]) if carried else None
+            ia = single_atom(init) if isinstance(init, Poly) else None
+            first = ia is not None and atom_fn(ia) == "payload0" and atom_args(ia)[0] == app("std::iter::Iterator::next", ("iterdesc", ("elems", seq)))
+            # (the only conditions on the path: the Staircase arm and "the sequence has a first element")
+            plain = all(isinstance(g, Poly) and single_atom(g) is not None and atom_fn(single_atom(g)) == "matches" and pol for g, pol in asg[0].guards)
+            ok3 = rest and upd and first and plain
+            why = "prev = first element; for el in the remaining elements: *el += prev; prev = *el [rest of the same iterator %s, carry updated to the element %s, carry starts at element 0 %s]" % (rest, upd, first)
     ck.inst("S3", "encode:accumulate", ok3, asg[0].site if asg else eb.span, why + " ; required for j in 1..len: parity[j] += parity[j-1]")
-    # from_h staircase arm: H0 copy
-    ins = [s for s in a.tracer.sites if s["kind"] == "contract" and s["detail"].endswith("::insert") and s["fn"] == FROM_H]
-    news = [s for s in a.tracer.sites if s["kind"] == "contract" and s["detail"].endswith("::new") and s["fn"] == FROM_H]
+    # from_h staircase arm: H0 copy (sites are taken from the whole expansion of from_h, so a private helper that builds H0 is seen through;
+    # "in the staircase arm" = under the path condition is_staircase(h))
+    def under(site, pol):
+        return any(g == STAIR and p == pol for g, p in site["guards"])
+    ins = [x for x in st.sites if x["kind"] == "contract" and x["detail"] == SM + "insert"]
+    news = [x for x in st.sites if x["kind"] == "contract" and x["detail"] == SM + "new"]
     ok3b = False
     why = "expected one insert and one new in the staircase arm"
     if len(ins) == 1 and len(news) == 1:
-        s = ins[0]
-        hv, rj, ck_ = s["vals"]
-        lp = s["loops"][-1] if s["loops"] else None
-        from_all = lp is not None and lp[0] == "iter" and isinstance(lp[1], tuple) and "iter_all(h)" in repr(lp[2]).replace("sparse::SparseMatrix::", "")
+        x = ins[0]
+        hv, rj, ck_ = x["vals"]
+        lp = x["loops"][-1] if x["loops"] else None
+        from_all = lp is not None and lp[0] == "iter" and isinstance(lp[1], tuple) and lp[2] == ("elems", app(SM + "iter_all", H))
         same = from_all and rj == var(lp[1][0]) and ck_ == var(lp[1][1])
-        guard = any(g == app("lt", ck_, Cc - Rr) and p for g, p in s["guards"])
-        stair = in_branch(fb, s["node"], True)
-        dims = news[0]["vals"] == [Rr, Cc - Rr]
+        others = [(g, p) for g, p in x["guards"] if g != STAIR]
+        guard = len(others) == 1 and others[0] == (app("lt", ck_, Cc - Rr), True)
+        stair = under(x, True) and under(news[0], True)
+        dims = news[0]["vals"] == [Rr, Cc - Rr] and matrix_dims(hv) == (Rr, Cc - Rr)
         ok3b = same and guard and stair and dims
         why = "staircase arm: generator = new(rows, cols-rows) receiving (j,k) of h.iter_all() unchanged iff k < cols-rows [%s %s %s %s]" % (same, guard, stair, dims)
     ck.inst("S3", "from_h:H0-copy", ok3b, ins[0]["sp"] if ins else fb.span, why)
@@ -147,32 +204,29 @@ def run(ck, F, tier):
             "is_staircase accepts, relative to column D = cols-rows: row 0 -> %s, row j != 0 -> %s, exactly 2*rows-1 ones (%s); the accumulator "
             "p_j = s_j + p_(j-1), p_0 = s_0 solves exactly these equations" % (sorted(map(repr, acc["first"])), sorted(map(repr, acc["rest"])), acc["count_ok"]))
     # S4 dense arm
-    idx = [s for s in a.tracer.sites if s["kind"] == "index" and s["fn"] == FROM_H]
+    idx = [x for x in st.sites if x["kind"] == "index" and under(x, False) and "&mut" in x["detail"] and x["loops"]]
     ok4 = False
     why = "dense arm: index site not found"
-    if idx:
-        s = idx[0]
-        iv = s["vals"][1]
-        if isinstance(iv, tuple) and iv[0] == "array" and len(iv[1]) == 2:
-            lp = s["loops"][-1]
+    if len(idx) == 1:
+        x = idx[0]
+        iv = x["vals"][1]
+        lp = x["loops"][-1]
+        if isinstance(iv, tuple) and iv[0] == "array" and len(iv[1]) == 2 and lp[0] == "iter" and isinstance(lp[1], tuple) and \
+                lp[2] == ("elems", app(SM + "iter_all", H)):
             j, k = var(lp[1][0]), var(lp[1][1])
             D = Cc - Rr
             want = app("ite", app("lt", k, D), k + Rr, k - D)
-            ok4 = iv[1][0] == j and iv[1][1] == want and in_branch(fb, s["node"], False)
-            why = "a[[j, t]] = 1 with t = %r ; required t = k + rows if k < cols-rows else k - (cols-rows)" % (iv[1][1],)
+            want2 = app("ite", app("le", D, k), k - D, k + Rr)
+            ok4 = iv[1][0] == j and iv[1][1] in (want, want2) and zeros_shape(x["vals"][0]) == (Rr, Cc)
+            why = "a[[j, t]] = 1 with t = %r ; required t = k + rows if k < cols-rows else k - (cols-rows), for every (j,k) of h.iter_all()" % (iv[1][1],)
     ck.inst("S4", "from_h:column-map", ok4, idx[0]["sp"] if idx else fb.span, why)
-    sl = [s for s in a.tracer.sites if s["kind"] == "call" and s["detail"].endswith("::slice") and s["fn"] == FROM_H]
+    sl = [x for x in st.sites if x["kind"] == "call" and x["detail"].endswith("::slice") and under(x, False)]
     ok4b = False
+    spec = None
     if len(sl) == 1:
-        rngs = [x for x in walk(sl[0]["node"]) if x.get("k") == "struct" and (x.get("def") or "").startswith("std::ops::Range")]
-        names = [(x.get("def"), [f["name"] for f in x["fields"]]) for x in rngs]
-        # s![.., n..] = (RangeFull, RangeFrom { start: n })
-        rf = [x for x in rngs if x.get("def") == "std::ops::RangeFrom"]
-        rows_locals = {st["pat"]["name"] for st in fb.value.get("stmts", []) if st.get("k") == "let" and st["pat"].get("k") == "bind"
-                       and (callee(strip(st.get("init", {}))) or "").endswith("SparseMatrix::num_rows")}
-        ok4b = len(rf) == 1 and local_name(rf[0]["fields"][0]["e"]) in rows_locals \
-            and any(x.get("def") == "std::ops::RangeFull" for x in walk(sl[0]["node"]) if x.get("k") in ("struct", "path"))
-    ck.inst("S4", "from_h:generator-slice", ok4b, sl[0]["sp"] if sl else fb.span, "generator = reduced array columns rows.. (s![.., n..]) of all rows")
+        spec = slice_spec(sl[0]["vals"][1])
+        ok4b = spec == [("struct", "RangeFull", ()), ("struct", "RangeFrom", (("start", ("P", Rr)),))] and zeros_shape(sl[0]["vals"][0]) == (Rr, Cc)
+    ck.inst("S4", "from_h:generator-slice", ok4b, sl[0]["sp"] if sl else fb.span, "generator = reduced array columns rows.. (s![.., n..]) of all rows: %r" % (spec,))
     dots = [e for e in te.events if e.callee.endswith("::dot")]
     ok4c = len(dots) == 1 and dots[0].args[1] == var("message") and "gen_matrix" in repr(dots[0].args[0])
     ck.inst("S4", "encode:dense-product", ok4c, dots[0].site if dots else eb.span, "dense parity = gen_matrix.dot(message)")
